@@ -22,6 +22,10 @@ def register(M):
                 return [Ref(v.cell, v.path + (('idx', bv(i)),)) for i in range(len(inner.items))]
             if isinstance(inner, Ref):
                 return seq_of(ex, inner, what)
+            inner = ex.materialize(inner)
+            if isinstance(inner, Adt) and T.type_name_hint(inner.ty)[0] == 'Option':
+                # Option::iter / iter_mut through a reference: a reference to the payload
+                return [Ref(v.cell, v.path + (('f', 1, 0, '?'),))] if M.is_some(ex, inner) else []
             raise Inconclusive('%s: iteration over %r (install a concrete-length vec in the harness)' % (what, inner))
         if isinstance(v, Obj) and v.kind == 'vec':
             return list(v.items)
@@ -125,6 +129,16 @@ def register(M):
                 it = ex.materialize(it)
                 M.assoc_insert(ex, c, (), c.v, ex.field_of(it, None, 0, '?'), ex.field_of(it, None, 1, '?'), 'Option<?>')
             return c.v
+        if h == 'Result' and T.type_name_hint((generic_args(dty or '') or ['?'])[0])[0] == 'Vec':
+            # Result<Vec<T>, E>: the first Err short-circuits
+            oks = []
+            for it in items:
+                it = ex.materialize(it)
+                if ex.branch(M.discr(ex, it) == bv(0)):
+                    oks.append(ex.field_of(it, 0, 0, '?'))
+                else:
+                    return Adt(dty, {(1, 0): ex.field_of(it, 1, 0, '?')}, 1, None)
+            return Adt(dty, {(0, 0): Obj('vec', items=tuple(oks), ty=generic_args(dty)[0])}, 0, None)
         raise Inconclusive('collect into %s' % dty)
 
     @reg('iter::once')
@@ -135,8 +149,31 @@ def register(M):
     def _(ex, info, a, dty):
         return mkiter([], dty)
 
+    @reg('Iterator::cloned', 'Iterator::copied')
+    def _(ex, info, a, dty):
+        out = []
+        for it in seq_of(ex, a[0]):
+            it = ex.materialize(it)
+            out.append(ex.read_path(it.cell, it.path) if isinstance(it, Ref) else it)
+        return mkiter(out, dty)
+
+    @reg('iter::repeat')
+    def _(ex, info, a, dty):
+        return Obj('repeat', item=a[0])
+
+    @reg('<impl>::split_first')
+    def _(ex, info, a, dty):
+        items = seq_of(ex, a[0], 'split_first()')
+        if not items:
+            return M.none(dty)
+        rest = Ref(Cell(Obj('vec', items=tuple(ex.read_path(r.cell, r.path) if isinstance(r, Ref) else r for r in items[1:]), ty='[T]'), name='tail'), ())
+        return M.some(dty, Adt('tuple', {(None, 0): items[0], (None, 1): rest}))
+
     @reg('Iterator::zip')
     def _(ex, info, a, dty):
+        ya = ex.materialize(a[1])
+        if isinstance(ya, Obj) and ya.kind == 'repeat':
+            return mkiter([Adt('tuple', {(None, 0): p, (None, 1): ya.item}) for p in seq_of(ex, a[0])], dty)
         x, y = seq_of(ex, a[0]), seq_of(ex, a[1])
         return mkiter([Adt('tuple', {(None, 0): p, (None, 1): q}) for p, q in zip(x, y)], dty)
 
